@@ -75,7 +75,7 @@ def tuples_for(arity, tier):
 
 
 class Outcome:
-    __slots__ = ("key", "specs", "prefix", "prefix_snapshot", "args", "stack", "exc", "ctx")
+    __slots__ = ("key", "specs", "prefix", "prefix_snapshot", "args", "stack", "exc", "ctx", "aliases", "alias_specs")
 
 
 def run_case(key, specs, timeout=5.0):
@@ -85,10 +85,14 @@ def run_case(key, specs, timeout=5.0):
     o.prefix = [[7, [8]], "S", 7]
     o.prefix_snapshot = [[7, [8]], "S", 7]
     o.args = [make(s) for s in specs]
+    # a second reference to every list-like argument sits below the arguments (aliasing is how duplicates, variables and the
+    # register share values); prefix[0..2] stay the plain sentinels
+    o.alias_specs = [s for s in specs if kind_of(s) in ("lazy", "list", "nested", "emptylist")]
+    o.aliases = [a for s, a in zip(specs, o.args) if kind_of(s) in ("lazy", "list", "nested", "emptylist")]
     import random
 
     random.seed(0)
-    stack, exc, ctx = sandbox.apply_element(key, o.prefix + o.args, timeout=timeout)
+    stack, exc, ctx = sandbox.apply_element(key, o.prefix + o.aliases + o.args, timeout=timeout)
     o.stack, o.exc, o.ctx = stack, exc, ctx
     return o
 
